@@ -130,6 +130,16 @@ func (c *caseT) earlyDone() bool {
 		}
 	case "Map", "FMap", "Map+StdErr", "FMap+StdErr", "fork.Map", "fork.FMap":
 		if c.Mode == "lift" {
+			if c.Stage == "fork.Map" || c.Stage == "fork.FMap" {
+				// the stage ends early only when every worker has met a failing element
+				nf := 0
+				for _, x := range in {
+					if c.fails(x) {
+						nf++
+					}
+				}
+				return nf >= c.Par
+			}
 			for _, x := range in {
 				if c.fails(x) {
 					return true
@@ -172,7 +182,7 @@ func (w *world) monitor() {
 		if s.closed && !w.cancelled && c2.Stage != "New" {
 			if !(w.inputsClosedAndConsumed(ins) || c2.earlyDone()) {
 				w.bad("closed-early", "%s reported closed while an input is still open or undelivered (issued %v, sent %v, buffered %d) and the context is not cancelled", p.name, c2.Inputs, ins[0].sent, ins[0].buffered)
-			} else if !(e.kind == "seq" && slices.Equal(got, exp) || e.kind != "seq" && sameMultiset(got, exp)) {
+			} else if !(e.kind == "seq" && slices.Equal(got, exp) || e.kind != "seq" && sameMultiset(got, exp) || e.partial) {
 				if !w.stageStoppedByError(c2) {
 					w.bad("closed-early", "%s closed after delivering %v, but the complete result for input %v is %v", p.name, got, c2.Inputs, exp)
 				}
@@ -266,6 +276,9 @@ func (w *world) endComplete() {
 		} else if e.kind == "interleave" {
 			ok = sameMultiset(got, e.outs[j]) && interleaveOK(got, c2.Inputs)
 		}
+		if e.partial {
+			ok = subMultiset(got, e.outs[j])
+		}
 		if !ok {
 			w.bad("result", "%s delivered %v, the list function gives %v (%s) for input %v", p.name, got, e.outs[j], e.kind, c2.Inputs)
 		}
@@ -275,6 +288,9 @@ func (w *world) endComplete() {
 		ok := slices.Equal(got, e.errs)
 		if e.kind == "multiset" {
 			ok = sameMultiset(got, e.errs)
+		}
+		if e.partial {
+			ok = subMultiset(got, e.errs)
 		}
 		if !ok {
 			w.bad("errors", "error channel delivered %v, expected %v (input %v failing %v mode %s)", got, e.errs, c2.Inputs, c2.Fail, c2.Mode)
@@ -298,6 +314,12 @@ func (w *world) checkCalls(e expectT, c2 *caseT) {
 	if e.kind == "seq" && e.calls != nil || (e.kind == "seq" && (c2.Stage == "ForEach")) {
 		if !slices.Equal(calls, e.calls) {
 			w.bad("calls", "user function was called on %v, expected exactly %v in this order", calls, e.calls)
+		}
+	} else if e.kind == "multiset" && e.partial {
+		for x, k := range n {
+			if k > 1 {
+				w.bad("calls", "user function was called %d times on element %d", k, x)
+			}
 		}
 	} else if e.kind == "multiset" && c2.Stage != "fork.Fold" && c2.Stage != "fork.Void" {
 		for _, x := range c2.Inputs[0] {
@@ -345,6 +367,52 @@ func (w *world) endCancel(bound int) {
 	}
 }
 
+// cancel-drain: after cancel (inputs closed) the consumers KEEP draining. A correct stage may legally
+// deliver a few more values (select picks a ready send over ctx.Done with probability 1/2 each time),
+// so the number delivered after cancel is geometrically distributed: more than postCancelLimit + the
+// buffered ones has probability < 2^-64. Then everything must be closed and every goroutine gone.
+const postCancelLimit = 64
+
+func (w *world) endCancelDrain(bound int) {
+	before := map[*port]int{}
+	w.cancel()
+	for _, p := range w.ins {
+		p.abortOps("close")
+	}
+	w.closeInputs()
+	for _, p := range w.allPorts() {
+		before[p] = len(p.snap().got)
+	}
+	w.drainAll()
+	w.quiesce()
+	ticks := 0
+	for (w.libGoroutines() > 0 || !w.allClosed()) && ticks < bound+postCancelLimit && w.c.Tick > 0 && isSource(w.c.Stage) {
+		time.Sleep(w.tick())
+		w.quiesce()
+		ticks++
+	}
+	for _, p := range w.allPorts() {
+		s := p.snap()
+		extra := len(s.got) - before[p]
+		allowed := postCancelLimit
+		if p.capF != nil {
+			allowed += p.capF()
+		}
+		for _, in := range w.ins {
+			allowed += len(in.snap().issued) // elements already handed to the stage may legally flow out
+		}
+		if isSource(w.c.Stage) && extra > allowed {
+			w.bad("leak-after-cancel", "context cancelled, consumers keep draining: %s delivered %d more values after cancel (a stage that honours cancel stops after a few; limit %d)", p.name, extra, allowed)
+		}
+		if !s.closed {
+			w.bad("not-closed-after-cancel", "context cancelled, inputs closed, consumers draining: %s never reported closed (%d values after cancel)", p.name, extra)
+		}
+	}
+	if g := w.libGoroutines(); g > 0 {
+		w.bad("leak-after-cancel", "context cancelled, inputs closed, consumers draining: %d library goroutine(s) still alive:\n%s", g, strings.Join(w.census(), "\n--\n"))
+	}
+}
+
 // ---------------------------------------------------------------- running one case
 
 type hooks struct {
@@ -386,6 +454,12 @@ func runCase(t *testing.T, c *caseT, h hooks) *world {
 					b = h.bound(c)
 				}
 				w.endCancel(b)
+			case "cancel-drain":
+				b := 0
+				if h.bound != nil {
+					b = h.bound(c)
+				}
+				w.endCancelDrain(b)
 			}
 			if h.final != nil {
 				h.final(w)
